@@ -83,10 +83,12 @@ func init() {
 			b, err := Build(d)
 			if err != nil || len(b.Faults) > 0 {
 				// the store itself misbehaves: that is C10's business; record what we can
-				enc.Encode(map[string]any{"ev": "note", "what": fmt.Sprint("tree faults: ", err, b != nil && len(b.Faults) > 0)})
-				if err != nil {
-					continue
-				}
+				// (a structural fault of the tree is itself an observation about the real code: the trace
+				// specification rejects the event; queries on a tree that is not the document would only cascade)
+				ev := treeFaultEvent(d, h, b, err)
+				enc.Encode(ev)
+				events++
+				continue
 			}
 			enc.Encode(map[string]any{"ev": "doc", "h": h, "doc": d})
 			st, _ := b.settings(env, nil)
